@@ -178,14 +178,17 @@ func runC16(seed uint64, enum bool) {
 			w.violate("C16", "over-release", "more slots available (in=%d out=%d) than the limit %d: a slot was returned twice", ain, aout, limit)
 		}
 		// bounded over time: a peer that accepted the stream of a 3 MB item and never reads keeps the node
-		// blocked in its write until the write times out (about 15 s); for all that time the transfer is in
+		// blocked in its write until the stream's context (that of the dial, 15 s) ends; for all that time the transfer is in
 		// progress and must hold its slot. The stream is established, so the node's transfer is certainly
 		// running. Judged in fault-free runs only.
 		if !faults && !stopped {
 			now := w.now()
 			writing := 0
-			for _, t0 := range tr.bigStallAt {
-				if now > t0+300*time.Millisecond && now < t0+12*time.Second {
+			for _, st := range tr.bigStallAt {
+				// the node's stream lives on the context of its dial, which began right after the ACCEPT:
+				// when the first SYN is lost (handshakes crossing) the stream is established seconds
+				// later, but still ends with that context
+				if now > st[0]+300*time.Millisecond && now < st[1]+12*time.Second {
 					writing++
 				}
 			}
